@@ -34,6 +34,17 @@ the statement gives meaning to; each word is run as executor and as assessor ver
 itself) under all 6 gate logics.  A word the library uses elsewhere (a LoopResult.action forwarded from a nested
 guard, a helper's notion of "success") must not count as the key of the agent that returned it.
 
+Rewriting agents (aliasing of caller-provided / shared mutable arguments): run() hands ONE mutable Signal to both
+agents.  Stub agents in the executor slot, the assessor slot or both rewrite it in place before answering (text
+trimmed, cut to its first line / first half, emptied, replaced by another request's or an earlier, cached request's
+text, extended, set to None, deleted; every other field forged by type; Signals kept from earlier calls rewritten
+later) or hand out one re-used answer object that is rewritten when the verdict changes; crossed with the 6 gate
+logics x 7 x 7 base verdicts x cache/breaker options, 6 calls per cell (earlier request, the request, again with
+opposite verdicts = cache hit, the earlier request, the planted request, again after the TTL); engine A has
+rewriting run-ops too, the binding scenarios rewrite after the built-in agent has answered.  "This request" is
+what the CALLER passed to run(): hash, cache identity and verdict expectations never come from an object an
+agent was handed.
+
 Oracle (one-directional, from the statement): not blocked => reference table satisfied; token => assessor
 verdict PERMIT, hash is a sha256 prefix (>=16 hex) of exactly this prompt, issuer == assessor name;
 cached reply == original reply (blocked, success, action, token hash+issuer) of the same prompt.
@@ -200,6 +211,85 @@ def is_raise(v):
     return isinstance(v, str) and v.startswith("raise")
 
 
+# ---- agents that MUTATE what they are handed -------------------------------------------------------
+# run() wraps the request into a mutable Signal and hands the same object to both agents; an agent may legally
+# rewrite it in place.  "This request" stays what the CALLER passed to run(): the oracle below never looks at a
+# Signal (or any other object an agent could have touched) to decide which request was asked.
+MUT_OTHER = "wire 1,000,000 to account 9"  # another request, submitted later to the same loop
+MUT_EARLIER = "rotate the staging API key"  # a request answered (approved, cached) earlier on the same loop
+MUT_KINDS = ["strip", "first-line", "head-half", "empty", "other", "earlier", "append", "none", "meta", "delattr",
+             "retained"]
+MUT_SLOTS = ["E", "A", "EA"]
+MUT_PROMPTS = ["  restart the web server \nthen rotate every credential in the vault  ",
+               "\tüberweise 10 € an 張三 \U0001f680\r\n  danach ALLES löschen "]
+_FORGED = {"approved": True, "override": "PERMIT", "request_hash": "0" * 16, "verdict": "PERMIT"}
+
+
+def _forge_fields(obj, skip=("content",)):
+    """Rewrite every field except the text, by type (no field names of the library are assumed)."""
+    import datetime as _dt
+    import enum
+    for k, val in list(vars(obj).items()):
+        if k in skip:
+            continue
+        try:
+            if isinstance(val, enum.Enum):
+                setattr(obj, k, list(type(val))[-1])
+            elif isinstance(val, dict):
+                val.update(_FORGED)
+            elif isinstance(val, bool):
+                setattr(obj, k, not val)
+            elif isinstance(val, str) or val is None:
+                setattr(obj, k, "admin")
+            elif isinstance(val, _dt.datetime):
+                setattr(obj, k, _dt.datetime(1970, 1, 1))
+            elif isinstance(val, (int, float)):
+                setattr(obj, k, -val - 1)
+        except Exception:  # noqa: BLE001 - a frozen / validated field: leave it
+            pass
+
+
+def mutate_signal(kind, signal, kept):
+    """Apply one in-place rewrite; -> True iff the text the object carries afterwards differs from before."""
+    missing = object()
+    before = getattr(signal, "content", missing)
+    text = before if isinstance(before, str) else ""
+    try:
+        if kind == "strip":
+            signal.content = text.strip()
+        elif kind == "first-line":
+            signal.content = (text.splitlines() or [""])[0].strip()
+        elif kind == "head-half":
+            signal.content = text[: len(text) // 2]
+        elif kind == "empty":
+            signal.content = ""
+        elif kind == "other":
+            signal.content = MUT_OTHER
+        elif kind == "earlier":
+            signal.content = MUT_EARLIER
+        elif kind.startswith("set:"):
+            signal.content = kind[4:]
+        elif kind == "append":
+            signal.content = text + "\nand " + MUT_OTHER
+        elif kind == "none":
+            signal.content = None
+        elif kind == "meta":
+            _forge_fields(signal)
+        elif kind == "delattr":
+            del signal.content
+        elif kind == "retained":  # rewrite the objects of EARLIER calls, keep this one for later
+            for old in kept:
+                old.content = MUT_OTHER
+                _forge_fields(old)
+            kept.append(signal)
+        else:
+            raise AssertionError(kind)
+    except (AttributeError, TypeError):  # frozen / slotted / already deleted: nothing to rewrite
+        pass
+    after = getattr(signal, "content", missing)
+    return not (type(after) is type(before) and after == before)
+
+
 class Stub:
     """Programmable executor / assessor assigned onto the real loop object."""
 
@@ -209,11 +299,25 @@ class Stub:
         self.shape = 0
         self.calls = 0
         self.log = []
+        self.mutate = None  # in-place rewrite of the Signal handed to express(), applied before answering
+        self.rewrites = 0  # how often the rewrite really changed the text
+        self.kept = []
+        self.reuse = False  # answer with ONE ActionProtein object, rewritten in place for every new verdict
+        self.answer = None
+
+    def set_verdict(self, v):
+        """The owner of the agent changes its verdict; with `reuse` the answer object handed out earlier (and
+        possibly kept inside an earlier, cached reply) is rewritten at once."""
+        self.verdict = v
+        if self.reuse and self.answer is not None and not is_raise(v) and not (isinstance(v, str) and v.startswith("ret:")):
+            self.answer.action_type = v
 
     def express(self, signal):
         self.calls += 1
         v = self.verdict
         self.log.append(v)
+        if self.mutate is not None:
+            self.rewrites += bool(mutate_signal(self.mutate, signal, self.kept))
         if is_raise(v):
             if v == "raise":
                 raise RuntimeError(f"{self.name} crashed")
@@ -233,6 +337,11 @@ class Stub:
         if v == "ret:dict":
             return {"action_type": "PERMIT", "payload": "ok", "confidence": 1.0}
         payload, conf, extra = shape(self.shape, self.name, v)
+        if self.reuse:
+            if self.answer is None:
+                self.answer = ActionProtein(v, payload, conf, **extra)
+            self.answer.action_type, self.answer.payload, self.answer.confidence = v, payload, conf
+            return self.answer
         return ActionProtein(v, payload, conf, **extra)
 
 
@@ -316,24 +425,35 @@ class Session:
     """One real loop + bookkeeping of the original (agent-consulted) reply per prompt.  What kind of step a
     call was (evaluated / cache hit / refusal) is derived from the agents' call log and the public reply only."""
 
-    def __init__(self, logic, cfg, real=False, budget=100_000, shapes=(0, 0)):
+    def __init__(self, logic, cfg, real=False, budget=100_000, shapes=(0, 0), reuse=False):
         self.logic = logic
         self.cfg = tuple(cfg)
         self.real = real
         self.loop, self.events = make_loop(logic, self.cfg, real=real, budget=budget)
+        self.agents = (self.loop.executor, self.loop.assessor)
         if not real:
             self.loop.executor.shape, self.loop.assessor.shape = shapes
+            self.loop.executor.reuse = self.loop.assessor.reuse = bool(reuse)
         self.noisy = real or bool(self.cfg[4])
         self.breaker = self.cfg[2] > 0
         self.orig = {}
         self.execs = 0
         self.last = None
 
-    def call(self, prompt, ex=None, as_=None):
+    def call(self, prompt, ex=None, as_=None, mut=None):
+        """mut = (kind, slots) : for this call the agent(s) in `slots` ("E", "A", "EA") rewrite the Signal they are
+        handed in place.  Everything the oracle knows about the request comes from `prompt`, the caller's argument."""
         L = self.loop
-        E, A = L.executor, L.assessor
+        E, A = self.agents  # the harness's own references: loop.executor / loop.assessor are not trusted either
+        kind, slots = mut or (None, "")
         if not self.real:
-            E.verdict, A.verdict = ex, as_
+            E.set_verdict(ex)
+            A.set_verdict(as_)
+            E.mutate = kind if "E" in slots else None
+            A.mutate = kind if "A" in slots else None
+        else:
+            E.after = (lambda sig: mutate_signal(kind, sig, [])) if "E" in slots else None
+            A.after = (lambda sig: mutate_signal(kind, sig, [])) if "A" in slots else None
         ne, na, c0 = len(E.log), len(A.log), E.calls + A.calls
         self.execs += 1
         try:
@@ -501,6 +621,72 @@ def shape_worker(chunk):
                 for key, what in v:
                     out["viol"].append((key, f"[executor answer shape #{se}, assessor answer shape #{sa}] {what}",
                                         {"kind": "shape", "logic": logic, "cfg": cfg, "shapes": (se, sa),
+                                         "ex": ex, "as": as_}))
+    return out
+
+
+# ---- agents that rewrite the shared Signal (or re-use their answer object) x base table x cache ----------
+
+MUT_REUSE = "answer-reuse"  # no Signal rewrite; the agent hands out one answer object and rewrites it later
+
+
+def mut_items(quick):
+    cfgs = BASE_CFGS + [all_cfgs()[-1]] if quick else all_cfgs()
+    return [(lg, cfg, pi, kind, slots) for lg in LOGICS for cfg in cfgs for pi in range(len(MUT_PROMPTS))
+            for kind in MUT_KINDS + [MUT_REUSE] for slots in MUT_SLOTS]
+
+
+def run_mut(logic, cfg, prompt, kind, slots, ex, as_):
+    """An earlier request is approved by well-behaved agents; then `prompt` is answered by agents of which those in
+    `slots` rewrite the Signal in place (call 2), asked again with the opposite verdicts (3); the earlier request
+    and the request whose text the rewrite may have planted are asked with blocking resp. opposite verdicts (4, 5);
+    `prompt` again after the TTL (6).  -> (violations, outcomes of the 6 calls, executions, effective rewrites)"""
+    clock = vclock.VClock()
+    vclock.use(clock)
+    reuse = kind == MUT_REUSE
+    ses = Session(logic, cfg)
+    if reuse:
+        ses.agents[0].reuse, ses.agents[1].reuse = "E" in slots, "A" in slots
+    mut = None if reuse else (kind, slots)
+    ex2, as2 = opposite(logic, ex, as_)
+    v, lasts = [], []
+    for p, e, a, m, adv in ((MUT_EARLIER, "EXECUTE", "PERMIT", None, 0), (prompt, ex, as_, mut, 0),
+                            (prompt, ex2, as2, mut, 0), (MUT_EARLIER, "BLOCK", "BLOCK", None, 0),
+                            (MUT_OTHER, ex2, as2, None, 0), (prompt, ex2, as2, mut, min(cfg[1], 1e6) + 1)):
+        if adv:
+            clock.advance(adv)
+        v += ses.call(p, e, a, mut=m)
+        lasts.append(ses.last)
+    return v, lasts, ses.execs, ses.agents[0].rewrites + ses.agents[1].rewrites
+
+
+def mut_worker(chunk):
+    out = _new_out()
+    out["rewrites"] = 0
+    for logic, cfg, pi, kind, slots in chunk:
+        for ex in BASE_VERDICTS:
+            for as_ in BASE_VERDICTS:
+                v, lasts, n, rw = run_mut(logic, cfg, MUT_PROMPTS[pi], kind, slots, ex, as_)
+                out["execs"] += n
+                out["cells"] += 1
+                out["rewrites"] += rw
+                for last in lasts:
+                    out["outcomes"].add(("mut",) + _outcome_key(logic, cfg, last))
+                    if last[0] == "run-raises":
+                        out["raises"] += 1
+                    elif last[0] == "refused":
+                        out["refused"] += 1
+                if lasts[1][0] == "evaluated":
+                    out["nontrivial"] += 1
+                    if not lasts[1][3][0]:
+                        out["passes"] += 1
+                if lasts[2][0] == "cache-hit":
+                    out["hits"] += 1
+                for key, what in v:
+                    who = {"E": "executor", "A": "assessor", "EA": "executor and assessor"}[slots]
+                    how = "re-uses one answer object" if kind == MUT_REUSE else f"rewrites the Signal in place ('{kind}')"
+                    out["viol"].append((key, f"[{who} {how}] {what}",
+                                        {"kind": "mut", "logic": logic, "cfg": cfg, "pi": pi, "mut": kind, "slots": slots,
                                          "ex": ex, "as": as_}))
     return out
 
@@ -674,13 +860,16 @@ class HistModel:
 
     def ops(self, st):
         o = [["run", pi, ex, as_] for pi in range(len(HIST_PROMPTS)) for ex in BASE_VERDICTS for as_ in BASE_VERDICTS]
+        # both agents rewrite the shared Signal to the text of the OTHER prompt (one op per kind of reply)
+        o += [["run", pi, ex, as_, "swap"] for pi in range(len(HIST_PROMPTS)) for _, (ex, as_) in sorted(HIST_KINDS.items())]
         o += [["advance", TTL + 1], ["advance", TTL / 2], ["clear"]]
         return o
 
     def step(self, st, op):
         vclock.use(st.clock)
         if op[0] == "run":
-            return st.ses.call(HIST_PROMPTS[op[1]], op[2], op[3])
+            mut = ("set:" + HIST_PROMPTS[1 - op[1]], "EA") if len(op) > 4 else None
+            return st.ses.call(HIST_PROMPTS[op[1]], op[2], op[3], mut=mut)
         if op[0] == "advance":
             st.clock.advance(op[1])
             st.ses.last = ("advance",)
@@ -726,19 +915,27 @@ REAL_PROMPTS = [
 REAL_BUDGETS = [1000, 35, 30, 25, 20, 15, 10, 5, 0]
 
 
+REAL_MUTS = [("E", "empty"), ("E", "other"), ("A", "other"), ("EA", "meta")]
+
+
 def real_scenarios():
-    return [[lg, cache, budget] for lg in LOGICS for cache in (True, False) for budget in REAL_BUDGETS]
+    sc = [[lg, cache, budget] for lg in LOGICS for cache in (True, False) for budget in REAL_BUDGETS]
+    # the proxies around the built-in agents rewrite the Signal in place after the built-in agent has answered
+    sc += [[lg, cache, REAL_BUDGETS[0], slots, kind] for lg in LOGICS for cache in (True, False) for slots, kind in REAL_MUTS]
+    return sc
 
 
 def run_real(sc):
     """-> (violations [(key, what)], witnessed [(ex, as, snap)], executions, outcomes)"""
-    logic, cache, budget = sc
+    logic, cache, budget = sc[:3]
+    mut = (sc[4], sc[3]) if len(sc) > 3 else None
+    tag = f", Signal rewritten in place ('{mut[0]}') by {mut[1]}" if mut else ""
     vclock.use(vclock.VClock())
     cfg = BASE_CFGS[0] if cache else BASE_CFGS[1]
     ses = Session(logic, cfg, real=True, budget=budget)
     v, wit, outs = [], [], set()
     for p in REAL_PROMPTS:
-        v += [(k, f"built-in agents, budget {budget}, cache {cache}: {w}") for k, w in ses.call(p)]
+        v += [(k, f"built-in agents, budget {budget}, cache {cache}{tag}: {w}") for k, w in ses.call(p, mut=mut)]
         outs.add(_outcome_key(logic, cfg, ses.last))
         if ses.last[0] == "evaluated":
             wit.append((ses.last[1], ses.last[2], ses.last[3], p))
@@ -813,6 +1010,7 @@ def run(ctx):
     fam_s = _family(ctx, shape_worker, shape_items(), tot, viol)
     fam_i = _family(ctx, ident_worker, ident_items(), tot, viol)
     fam_h = _family(ctx, hist_worker, hist_items(quick), tot, viol)
+    fam_m = _family(ctx, mut_worker, mut_items(quick), tot, viol)
     viol.sort(key=lambda x: (x[0], repr(x[2])))
     for k, w, c in viol:
         ctx.report(k, w, c)
@@ -841,7 +1039,8 @@ def run(ctx):
             if not ok:
                 mism.append((sc, wex, was, s, t))
     if mism:
-        raise common.HarnessError(f"stub agents do not reproduce the built-in agents' replies: {mism[:3]}")
+        # a changed tree can cause this (e.g. a reply computed from a rewritten Signal): only fatal without violations
+        ctx.defer_harness_error(f"stub agents do not reproduce the built-in agents' replies: {mism[:3]}")
     odd = sorted(repr(w) for w in witnessed if any(x not in BASE_VERDICTS + [None] for x in w))
     if odd:
         ctx.note(f"built-in agents produced verdicts outside the enumerated alphabet: {odd}")
@@ -877,7 +1076,11 @@ def run(ctx):
              "executor answer, assessor answer) cell = 3 run() calls (answer; opposite verdicts; again after the TTL); "
              "(unknown words) every hand-picked or source-harvested non-verdict action word as executor / assessor / "
              "both x every base verdict x gate logic; "
-             "(shapes) base table x executor/assessor payload-confidence shapes; (identity) every near-miss variant of "
+             "(shapes) base table x executor/assessor payload-confidence shapes; (rewriting agents) base table x "
+             "every in-place rewrite of the Signal handed to the agents (text trimmed / cut / emptied / replaced by "
+             "another or an earlier request's text / extended / None / deleted, other fields forged, signals of earlier "
+             "calls rewritten later, one re-used answer object) x slot (executor, assessor, both), 6 calls incl. cache "
+             "hit, the planted request and the earlier request; (identity) every near-miss variant of "
              "every base prompt, both orders, 4 calls; (history) base table after every prefix x tail x target. "
              "distinct = distinct cell / pair; non-trivial = first (table, shapes) or judged (history) reply is NOT the "
              "fall-through blocked ERROR resp. was really evaluated, for identity: the neighbour was evaluated on its "
@@ -894,7 +1097,9 @@ def run(ctx):
         prompts=len(pis),
         table_cells=len(LOGICS) * len(VERDICTS) ** 2,
         family_cells={"table": fam_d["cells"], "unknown_words": fam_w["cells"], "shapes": fam_s["cells"], "identity_pairs": fam_i["pairs"],
-                      "history": fam_h["cells"]},
+                      "history": fam_h["cells"], "rewriting_agents": fam_m["cells"]},
+        signal_rewrites={"kinds": MUT_KINDS + [MUT_REUSE], "slots": MUT_SLOTS, "prompts": len(MUT_PROMPTS),
+                         "effective_rewrites": fam_m["rewrites"]},
         identity_variants=[len(variants(b)) for b in IDENT_BASES],
         history_prefixes=len(hist_prefixes(quick)),
         passing_cells=tot["passes"],
@@ -908,6 +1113,11 @@ def run(ctx):
     if quick:
         ctx.coverage["quick_tier_reduction"] = ("non-base option tuples run on prompt #0 only (thorough: every prompt); "
                                                 "history prefixes of length 1 and threshold+2 only")
+    ctx.note("'this request' is what the caller passed to run(): hash, cache identity and expected verdicts are computed "
+             "from the caller's argument and the agents' own call logs, never from a Signal / reply object an agent was "
+             "handed. Not asserted (not in the statement): that the assessor is shown the un-rewritten text after the "
+             "executor rewrote the shared Signal; what a callback does to the LoopResult it is handed (on_block/"
+             "on_permit mutating the reply would be the caller forging its own verdict)")
     ctx.assumptions += [
         "stub agents return ActionProtein(verdict, payload, confidence); only action_type is assumed to drive the gate "
         "(checked: every verdict pair witnessed on the built-in agents gives the same reply with stubs; 9x9 answer "
@@ -927,6 +1137,9 @@ def replay(ctx, case):
         return run_cell(case["logic"], tuple(case["cfg"]), prompt, case["ex"], case["as"])[0]
     if kind == "shape":
         return run_cell(case["logic"], tuple(case["cfg"]), PROMPTS[0], case["ex"], case["as"], tuple(case["shapes"]))[0]
+    if kind == "mut":
+        return run_mut(case["logic"], tuple(case["cfg"]), MUT_PROMPTS[case["pi"]], case["mut"], case["slots"],
+                       case["ex"], case["as"])[0]
     if kind == "ident":
         base = IDENT_BASES[case["base"]]
         var = dict(variants(base))[case["variant"]]
